@@ -19,7 +19,8 @@ CONSTANTS TLt(_, _),        \* strict order on timestamps
           TSucc(_),         \* saturating successor
           TAddTtl(_, _),    \* base + ttl seconds, saturating (ttl a natural > 0)
           TRemSecs(_, _),   \* (exp - now) div one second, as a time value (exp > now)
-          TZero, TMaxV
+          TZero, TMaxV,
+          TtlNone           \* the ttl argument meaning "no expiry" (0 seconds)
 
 CONSTANTS Overhead,         \* fixed per-record overhead in bytes
           MaxValueLen,      \* 4 MiB
@@ -46,7 +47,7 @@ Rec(ts, exp, val) == [p |-> TRUE, ts |-> ts, exp |-> exp, val |-> val]
 \* cfg: [pers, ttl, cache : BOOLEAN, fmt : 1..3, lim : Int (-1 = unlimited)]
 Expired(cfg, r, now) == cfg.ttl /\ r.p /\ r.exp # TZero /\ TLt(r.exp, now)
 Live(cfg, r, now) == r.p /\ ~Expired(cfg, r, now)
-ExpOf(ts, ttl) == IF ttl = 0 THEN TZero ELSE TAddTtl(ts, ttl)
+ExpOf(ts, ttl) == IF ttl = TtlNone THEN TZero ELSE TAddTtl(ts, ttl)
 RecSize(klen, r) == IF r.p THEN Overhead + klen + r.val.len ELSE 0
 
 (* ------------------------------- results ------------------------------- *)
@@ -87,7 +88,7 @@ InsertOut(cfg, cur, now, mem, klen, v, auto, t, ttl, withTtl) ==
   ELSE IF NewKeyBad(cfg, klen) THEN {Out(Err("InvalidKeySize"), cur, FALSE, TZero)}
   ELSE IF ~ValueSizeOK(v) THEN {Out(Err("InvalidValueSize"), cur, FALSE, TZero)}
   ELSE
-    LET exp == IF ttl > 0 /\ cfg.ttl THEN ExpOf(t, ttl) ELSE TZero
+    LET exp == IF ttl # TtlNone /\ cfg.ttl THEN ExpOf(t, ttl) ELSE TZero
         new == Rec(t, exp, v)
     IN IF cur.p
        THEN IF TLe(t, cur.ts) THEN {Out(Err("OlderTimestamp"), cur, auto, TZero)}
@@ -119,7 +120,7 @@ DeleteOut(cfg, cur, now, klen, auto, t) ==
 (* compare_and_swap: never compares an expired value; the timestamp is drawn only after
    the comparison succeeded. *)
 CasOut(cfg, cur, now, mem, klen, expected, v, auto, t, ttl) ==
-  IF ttl > 0 /\ TtlWriteUnsupported(cfg) THEN {Out(Err("Unsupported"), cur, FALSE, TZero)}
+  IF ttl # TtlNone /\ TtlWriteUnsupported(cfg) THEN {Out(Err("Unsupported"), cur, FALSE, TZero)}
   ELSE IF NewKeyBad(cfg, klen) THEN {Out(Err("InvalidKeySize"), cur, FALSE, TZero)}
   ELSE IF ~ValueSizeOK(v) THEN {Out(Err("InvalidValueSize"), cur, FALSE, TZero)}
   ELSE IF ~Live(cfg, cur, now) \/ cur.val # expected THEN {Out(OkBool(FALSE), cur, FALSE, TZero)}
@@ -131,7 +132,7 @@ CasOut(cfg, cur, now, mem, klen, expected, v, auto, t, ttl) ==
    retired generation leaves `now` as a lower bound for the re-creation's timestamp.
    sum: the saturated v + d supplied by the instantiation (64-bit in traces). *)
 IncrOut(cfg, cur, now, mem, klen, d, sum, auto, t, ttl) ==
-  IF ttl > 0 /\ TtlWriteUnsupported(cfg) THEN {Out(Err("Unsupported"), cur, FALSE, TZero)}
+  IF ttl # TtlNone /\ TtlWriteUnsupported(cfg) THEN {Out(Err("Unsupported"), cur, FALSE, TZero)}
   ELSE IF NewKeyBad(cfg, klen) THEN {Out(Err("InvalidKeySize"), cur, FALSE, TZero)}
   ELSE IF ~auto /\ cur.p /\ TLe(t, cur.ts) THEN {Out(Err("OlderTimestamp"), cur, FALSE, TZero)}
   ELSE IF Expired(cfg, cur, now) \/ ~cur.p THEN
